@@ -30,6 +30,7 @@ import (
 	"github.com/thushan/olla/internal/verif/h/lib/hutil"
 	"github.com/thushan/olla/internal/verif/h/lib/report"
 	"github.com/thushan/olla/internal/verif/h/lib/stack"
+	"github.com/thushan/olla/internal/verif/shim/vclock"
 	"github.com/thushan/olla/internal/verif/shim/vsched"
 )
 
@@ -652,6 +653,18 @@ func main() {
 			w.close()
 		}
 	}
+	// P4: one configuration per shard slot
+	vclock.SetJump()
+	p4idx := 0
+	for _, en := range []string{"olla", "sherpa"} {
+		for _, bal := range []string{"priority", "least-connections", "round-robin"} {
+			p4idx++
+			if report.Mine(p4idx) {
+				p4(en, bal)
+			}
+		}
+	}
+	res.Info["P4"] = "skeletons of sequential requests (F = A resets, failover to B; K = plain) with the start and release of one or two held-open responses inserted at every pair of positions; >= 5 F open the olla engine's breaker so later requests skip A; gauge oracle after every event, counters at the end; 2 engines x 3 balancers"
 	res.Info["bounds"] = map[string]any{"outcome_kinds": kinds, "clients": "1 (P1), 2 (all block orders), 3 (<=1 preemption quick, <=2 thorough; tuples with 1-2 failing clients quick)", "engines": []string{"sherpa", "olla"},
 		"balancers": []string{"priority", "least-connections"}, "gates": "backend arrival of every attempt", "p3": "RecordConnection +-1 from 3 threads, <=3 preemptions"}
 	res.Info["rule"] = "states = distinct (outcome tuple, block trace) pairs; the gauge oracle is evaluated after every block, the counter oracle at quiescence"
